@@ -7,6 +7,7 @@ import (
 	"fmt"
 	"io"
 	"math/big"
+	"os"
 	"os/exec"
 	"strings"
 	"sync/atomic"
@@ -53,10 +54,26 @@ type Solver struct {
 	lastErr  string
 	scopeDef []map[uint64]bool
 	context  func() string
+	asserted  []*Term // assertions of the current path (for one-shot retries, solver_oneshot.go)
+	oneShotMs int     // 0: 4x the incremental timeout
+	noOneShot bool
+	tactic   string   // non-empty: (check-sat-using <tactic>) instead of (check-sat)
+	logf     *os.File // VERIF_SMTLOG=<dir>: transcript of everything sent (diagnostics)
+}
+
+// solverExe maps a solver spec to the executable ("cvc5-bvint" = cvc5 with
+// bit-vectors translated to integer arithmetic, for uint64 x big.Int products).
+func solverExe(bin string) string {
+	if bin == "cvc5-bvint" {
+		return "cvc5"
+	}
+	return bin
 }
 
 func solverArgs(bin string) []string {
 	switch {
+	case bin == "cvc5-bvint":
+		return []string{"--incremental", "--lang=smt2", "--produce-models", "--solve-bv-as-int=sum"}
 	case strings.Contains(bin, "cvc5"):
 		return []string{"--incremental", "--lang=smt2", "--produce-models"}
 	default:
@@ -73,7 +90,7 @@ func NewSolver(bin string, timeoutMs int) (*Solver, error) {
 }
 
 func (s *Solver) start() error {
-	s.cmd = exec.Command(s.bin, solverArgs(s.bin)...)
+	s.cmd = exec.Command(solverExe(s.bin), solverArgs(s.bin)...)
 	in, err := s.cmd.StdinPipe()
 	if err != nil {
 		return err
@@ -91,6 +108,9 @@ func (s *Solver) start() error {
 	s.em = NewEmitter()
 	s.depth = 0
 	s.dead = false
+	if d := os.Getenv("VERIF_SMTLOG"); d != "" && s.logf == nil {
+		s.logf, _ = os.Create(fmt.Sprintf("%s/solver-%d-%d.smt2", d, os.Getpid(), atomic.AddInt64(&solverSeq, 1)))
+	}
 	hdr := "(set-option :produce-models true)\n"
 	if strings.Contains(s.bin, "cvc5") {
 		hdr += "(set-logic ALL)\n"
@@ -119,13 +139,19 @@ func (s *Solver) send(txt string) {
 	if s.keepLog {
 		s.script.WriteString(txt)
 	}
+	if s.logf != nil {
+		s.logf.WriteString(txt)
+	}
 	if _, err := io.WriteString(s.in, txt); err != nil {
 		s.dead = true
 	}
 }
 
+var solverSeq int64
+
 // Reset discards all assertions (start of a new path).
 func (s *Solver) Reset() {
+	s.asserted = s.asserted[:0]
 	if s.dead {
 		s.restart()
 		return
@@ -136,11 +162,13 @@ func (s *Solver) Reset() {
 	}
 	s.em = NewEmitter()
 	s.script.Reset()
+	s.asserted = s.asserted[:0]
 	s.send("(push)\n")
 	s.depth = 1
 }
 
 func (s *Solver) Assert(t *Term) {
+	s.asserted = append(s.asserted, t)
 	s.em.Define(t)
 	s.send(s.em.Take())
 	s.send("(assert " + s.em.ref(t) + ")\n")
@@ -154,7 +182,11 @@ func (s *Solver) readLine() (string, error) {
 // checkRaw sends (check-sat) and reads the answer.
 func (s *Solver) checkRaw() SatResult {
 	t0 := time.Now()
-	s.send("(check-sat)\n")
+	if s.tactic != "" {
+		s.send("(check-sat-using " + s.tactic + ")\n")
+	} else {
+		s.send("(check-sat)\n")
+	}
 	s.stats.Queries++
 	res := Unknown
 	for {
@@ -224,6 +256,18 @@ func (s *Solver) CheckWith(extra *Term, keepOnSat bool) SatResult {
 		return r
 	}
 	s.send("(pop)\n")
+	if r == Unknown && !s.noOneShot && !s.dead && s.lastErr == "" {
+		// retry in a fresh non-incremental process; a "sat" is only usable when no model is wanted
+		if r2 := s.oneShot(extra); r2 == Unsat || (r2 == Sat && !keepOnSat) {
+			s.stats.Unknown--
+			if r2 == Unsat {
+				s.stats.Unsat++
+			} else {
+				s.stats.Sat++
+			}
+			return r2
+		}
+	}
 	return r
 }
 
